@@ -696,7 +696,7 @@ var kindTable = []struct {
 	{regexp.MustCompile(`is not a valid 'if' value`), "skipvar"},
 	{regexp.MustCompile(`could not determine operation`), "opchoice"},
 	{regexp.MustCompile(`strconv\.Parse`), "coerceout"},
-	{regexp.MustCompile(`can not coerce .* into a (Int|String|Boolean|ID|Float|T\d+)`), "coerce"},
+	{regexp.MustCompile(`can not coerce .* into a \[*(Int|String|Boolean|ID|Float|T\d+)`), "coerce"},
 }
 
 var fragAtRe = regexp.MustCompile(`^fragment at (\d+):(\d+)$`)
